@@ -1,6 +1,6 @@
 """C17 Inactivity shutdown needs all parties idle at once and cannot deadlock."""
 from mirlib import op_place, AnchorMissing, describe_operand, describe_rvalue, dom_guards, guards, _suffix_match
-from rules.common import aggregates, callers_by_name, calls_on_field, owner_def, where
+from rules.common import guards_with_sources, aggregates, callers_by_name, calls_on_field, owner_def, where
 
 META = {
     "explanation": (
@@ -57,8 +57,11 @@ def run(ctx):
             raise AnchorMissing("vote: no Unanimous return")
         for blk, line in un:
             g = guards(vote, blk)
-            direct = any(d.startswith("Eq(fetch_or(") and d.endswith(".inverse)") and l == "true" for d, l, _ in g)
-            via = any(any(d.startswith("Eq(%s(" % h) for h in rmw_helpers) and d.endswith(".inverse)") and l == "true" for d, l, _ in g)
+            # (`prev == inverse` on its true edge, or `prev != inverse` on its false edge: the same decision)
+            def eq_true(d, l, head):
+                return (d.startswith("Eq(" + head) and l == "true") or (d.startswith("Ne(" + head) and l == "false")
+            direct = any(eq_true(d, l, "fetch_or(") and d.endswith(".inverse)") for d, l, _ in g)
+            via = any(any(eq_true(d, l, "%s(" % h) for h in rmw_helpers) and d.endswith(".inverse)") for d, l, _ in g)
             r.check(direct or via, "vote/unanimity-from-rmw", vote.loc(line),
                     "Unanimous is returned on `fetch_or(..) == inverse` (the value observed by the RMW itself)", "Unanimous is not decided from the fetch_or result: %s" % [(d, l) for d, l, _ in g])
             wk = [c for c in vote.calls if c.name == "wake" and ".waker" in describe_operand(vote, c.args[0])]
@@ -79,6 +82,20 @@ def run(ctx):
                 for t in resc.calls:
                     if t.name in ("is_ok", "is_err") and t.args and any(s_[0] == "call" and s_[1] is c for s_ in resc.sources(t.args[0])):
                         be = resc.bool_edges(t)
+                        if not be and t.dest is not None and not t.dest[1]:
+                            # the answer is handed on before it is branched on (`let rescinded = if two { helper_a() } else { helper_b() }; if rescinded`
+                            # with the helpers spliced in): follow the plain copies to the test
+                            flow = {t.dest[0]}
+                            for _ in range(6):
+                                for i_, j_, p_, rv_, l_ in resc.assigns():
+                                    if not p_[1] and rv_[0] == "use" and rv_[1][0] in ("c", "m") and not rv_[1][1][1] and rv_[1][1][0] in flow:
+                                        flow.add(p_[0])
+                            for sb_ in range(resc.n):
+                                tt_ = resc.term(sb_)
+                                if tt_["k"] == "switch" and not resc.is_cleanup(sb_):
+                                    pd_ = op_place(tt_["discr"])
+                                    if pd_ is not None and not pd_[1] and pd_[0] in flow and len(tt_["arms"]) == 1 and int(tt_["arms"][0][0]) == 0:
+                                        be = (tt_["otherwise"], tt_["arms"][0][1], sb_)
                         if be:
                             ok_edge, err_edge = (be[0], be[1]) if t.name == "is_ok" else (be[1], be[0])
                 if ok_edge is None:
@@ -158,6 +175,9 @@ def run(ctx):
             g = guards(resc, blk)
             good = any((d.startswith("Eq(load(") and l == "true") or (d.startswith("is_err(compare_exchange(") and l == "true") or (d.startswith("is_ok(compare_exchange(") and l == "false")
                        or (d.startswith("disc(fetch_update(") and l == "Err") or (d.startswith("disc(compare_exchange") and l == "Err") for d, l, _ in g)
+            if not good:
+                # the observation may have been made in a helper whose answer is tested here: what the tested value was computed from
+                good = any(any(k_ in src for k_ in ("compare_exchange(", "compare_exchange_weak(", "fetch_update(", "load(")) and ".flags" in src for d, l, sb, src in guards_with_sources(resc, blk, control=True))
             r.check(good, "rescind/unanimous-guarded", resc.loc(line), "Unanimous is returned only after observing flags (equality with the mask, or a refused update)", "Unanimous returned without observing flags")
         g0 = [c for c in resc.calls if c.name == "get" and ".voted" in describe_operand(resc, c.args[0])]
         r.check(bool(g0) and all(any(d == "get(self.voted)" and l == "true" for d, l, _ in guards(resc, c.block)) for c, _, _, _ in ups), "rescind/only-if-voted", where(resc),
